@@ -58,7 +58,14 @@ def units(tier: str) -> list[tuple]:
     from ..explore import layout
 
     us += [u for u in layout.units(tier) if u[4] in ("indent", "sep")]
+    us += [("exotic",)]
     return us
+
+
+# characters that are legal in a str but not in a program, or legal only in some places
+EXOTIC = ["\udc80", "\ud800", "\x00", "\ufeff", "\U0001f600", "\u0301", "\x7f", "\x1b", "\u200b", "\xad"]
+EXOTIC_CARRIERS = ["x = {C}\n", "x = 'a{C}b'\n", "# {C}\nx = 1\n", "a{C} = 1\n", "f'{C}{{x}} {{y!r:{C}>3}}'\n", "$(echo {C})\n", "é{C} = 'ü{C}'\n",
+                   "x = '''a\n{C}'''\n", "{C}", "b'{C}'\n", "f!({C})\n", "with! a:\n    {C}\n", "p'{C}'\n", "`{C}`\n", "x = 1 +{C}\n", "${{'{C}'}}\n"]
 
 
 # size families for the tokenizer: a long homogeneous run inside every lexical context (catastrophic regex backtracking
@@ -104,6 +111,14 @@ def cases(unit: tuple):
                             if t[:k] not in seen:
                                 seen.add(t[:k])
                                 yield t[:k]
+    elif kind == "exotic":
+        for c in EXOTIC:
+            for car in EXOTIC_CARRIERS:
+                t = car.replace("{{", "\0").replace("}}", "\1").replace("{C}", c).replace("\0", "{").replace("\1", "}")
+                yield t
+                yield t.rstrip("\n")
+                if not 0xD800 <= ord(c) <= 0xDFFF:  # a lone surrogate cannot be written to a UTF-8 file
+                    yield {"file": t}
     elif kind == "lay":
         from ..explore import layout
 
